@@ -67,6 +67,23 @@ def probe_pd(ctx, payload):
         ctx.violation("range", "pd", payload, dict(result=repr(d)), model, reg)
         return
     ctx.frac("max_value_seen", d)
+    if meta["regime"] == "vanishing_sigma" and k == 2:
+        # the supremum of the two-team form: two level teams of (nearly) certain players, value 1 up to rounding.  The
+        # rounding depends on mu/beta, so the level mu is swept over the box: every value must come back, inside [0, 1]
+        n_ = len(teams[0])
+        for i in range(40):
+            mu_i = (-20.0 + i + 0.3719 * ((i * 7) % 5)) * beta / n_ if i < 40 else 0.0
+            tl = [[[mu_i, p[1], p[2]] for p in t] for t in teams[:1]] * 2
+            tl[1] = [[p[0], p[1], "m" + p[2]] for p in tl[0]]
+            oi = call_pred(case, "predict_draw", tl)
+            ctx.ev("range/level-certain-players")
+            if oi.exc is not None:
+                ctx.violation("no-return", "pd", payload, dict(level_mu=mu_i, sigma=[p[1] for p in tl[0]], exc=exc_detail(oi.exc)), model, reg)
+                break
+            if not in01(oi.res):
+                ctx.violation("range", "pd", payload, dict(level_mu=mu_i, sigma=[p[1] for p in tl[0]], result=repr(oi.res)), model, reg)
+                break
+            ctx.frac("level_certain_excess_over_1/ulp", max(oi.res - 1.0, 0.0) / 2.220446049250313e-16)
     alias_clause(ctx, "pd", payload, case, "predict_draw", d, model, reg)
     inplace_clause(ctx, "pd", payload, case, "predict_draw", model, reg)
     perm, pp = payload["perm"], payload["pperm"]
